@@ -1,8 +1,8 @@
 (* C03 — Buffer retention: nothing unread is evicted; a lagging consumer fails loudly.  (cleaner-function part)
    Statements only. *)
 From Coq Require Import List ZArith Bool.
-From BB.Model Require Import Cleaner.
-From BB.Proofs Require Cleaner.
+From BB.Model Require Import Cleaner Buffer.
+From BB.Proofs Require Cleaner Buffer.
 Import ListNotations.
 Open Scope Z_scope.
 
@@ -38,3 +38,60 @@ Theorem C03_shift_is_clamped : forall len shift,
   0 <= r <= len /\ (0 <= shift <= len -> r = shift) /\ (shift < 0 -> r = 0) /\ (shift > len -> r = len).
 Proof. exact Proofs.Cleaner.clamp_shift_spec. Qed.
 Print Assumptions C03_shift_is_clamped.
+
+Close Scope Z_scope.
+
+(* ---- the Buffer under its cleaners (Model/Buffer.v; schedules = any interleaving of operations, cleaner runs, shutdown) ---- *)
+
+(* Default cleaner: in every reachable state the base is at or below the committed offset of every registered consumer
+   (uncommitted reads do not count) — nothing a registered consumer has not committed past is ever evicted. *)
+Theorem C03_default_never_evicts_unread : forall evs,
+  let s := fst (erun (init CDefault) evs) in
+  Forall (fun c => creg c = true -> base s <= ccommit c) (cs s).
+Proof.
+  intros evs. apply Proofs.Buffer.default_never_evicts_unread; [reflexivity|apply Proofs.Buffer.Inv_init|constructor].
+Qed.
+Print Assumptions C03_default_never_evicts_unread.
+
+(* so a consumer that keeps reading never gets an offset error, however far ahead the others are *)
+Theorem C03_default_get_never_offset_error : forall evs c k,
+  let s := fst (erun (init CDefault) evs) in
+  getc s c = Some k -> creg k = true -> ccancel k = false -> bclosed s = false ->
+  snd (step s (OGet c)) <> RErr.
+Proof. exact Proofs.Buffer.default_get_never_offset_error. Qed.
+Print Assumptions C03_default_get_never_offset_error.
+
+(* and nothing is removed while no consumer exists *)
+Theorem C03_default_no_consumer_no_eviction : forall s,
+  cfg s = CDefault -> Proofs.Buffer.Inv s -> Proofs.Buffer.DInv s -> filter creg (cs s) = [] -> base (clean s) = base s.
+Proof. exact Proofs.Buffer.default_no_consumer_no_eviction. Qed.
+Print Assumptions C03_default_no_consumer_no_eviction.
+
+(* Any cleaner (any function at all): a run of cleanupLogic only moves the base forward, within the log, and touches
+   neither the log nor any consumer — consumers at or beyond the trim point are unaffected. *)
+Theorem C03_any_cleaner_only_advances_base : forall (f : Z -> list Z -> Z) s,
+  Proofs.Buffer.Inv s -> let s' := clean_with f s in
+  base s <= base s' <= length (log s) /\ log s' = log s /\ cs s' = cs s.
+Proof. exact Proofs.Buffer.any_cleaner_only_advances_base. Qed.
+Print Assumptions C03_any_cleaner_only_advances_base.
+
+(* A consumer whose next value has been evicted (cursor below the base) stays so under every later schedule, and every
+   later Get of it returns an error and changes nothing: never a skipped, stale or wrong value. *)
+Theorem C03_evicted_fails_forever : forall evs s i,
+  Proofs.Buffer.Inv s -> Proofs.Buffer.lagging s i ->
+  let s' := fst (erun s evs) in Proofs.Buffer.lagging s' i /\ step s' (OGet i) = (s', RErr).
+Proof. exact Proofs.Buffer.evicted_fails_forever. Qed.
+Print Assumptions C03_evicted_fails_forever.
+
+(* Slice and Size are the not-yet-evicted suffix of the put order; Diff is (values put) - (read position), and exceeds
+   Size exactly when the consumer has fallen behind the base. *)
+Theorem C03_slice_size_diff : forall s c k,
+  Proofs.Buffer.Inv s -> getc s c = Some k -> creg k = true ->
+  step s OSlice = (s, RBuf (skipn (base s) (log s))) /\
+  step s OSize = (s, RInt (length (log s) - base s)) /\
+  length (skipn (base s) (log s)) = length (log s) - base s /\
+  step s (ODiff c) = (s, RDiff (Z.of_nat (length (log s)) - Z.of_nat (ccommit k + cdelta k)) true) /\
+  ((Z.of_nat (length (log s)) - Z.of_nat (ccommit k + cdelta k) > Z.of_nat (length (log s) - base s))%Z
+     <-> ccommit k + cdelta k < base s).
+Proof. exact Proofs.Buffer.slice_size_diff. Qed.
+Print Assumptions C03_slice_size_diff.
